@@ -374,3 +374,85 @@ func (c *Conn) OutSince(from int) []byte {
 	}
 	return append([]byte(nil), c.out[from:]...)
 }
+
+// ClientEnd adapts the harness side of a Conn to net.Conn so that a real
+// client implementation (crypto/tls) can talk to the server: Write pushes one
+// input segment, Read takes what the server wrote. It keeps a tap of both raw
+// directions and knows when its reader is parked with nothing to read.
+type ClientEnd struct {
+	C       *Conn
+	rd      int  // how much of C.out the client has consumed
+	Sent    []byte
+	parked  bool // client reader blocked with nothing to read
+	closed  bool
+}
+
+// NewClientEnd starts reading at the current end of the server's output.
+func NewClientEnd(c *Conn) *ClientEnd {
+	c.mu.Lock()
+	defer c.mu.Unlock()
+	return &ClientEnd{C: c, rd: len(c.out)}
+}
+
+func (e *ClientEnd) Read(p []byte) (int, error) {
+	c := e.C
+	c.mu.Lock()
+	defer c.mu.Unlock()
+	for {
+		if e.rd < len(c.out) {
+			n := copy(p, c.out[e.rd:])
+			e.rd += n
+			c.cond.Broadcast()
+			return n, nil
+		}
+		if c.closed || e.closed {
+			return 0, io.EOF
+		}
+		e.parked = true
+		c.cond.Broadcast()
+		c.cond.Wait()
+		e.parked = false
+	}
+}
+
+func (e *ClientEnd) Write(p []byte) (int, error) {
+	c := e.C
+	c.mu.Lock()
+	if c.closed || e.closed {
+		c.mu.Unlock()
+		return 0, net.ErrClosed
+	}
+	e.Sent = append(e.Sent, p...)
+	c.segs = append(c.segs, segment{data: append([]byte(nil), p...)})
+	c.parked = false
+	c.cond.Broadcast()
+	c.mu.Unlock()
+	return len(p), nil
+}
+
+func (e *ClientEnd) Close() error {
+	c := e.C
+	c.mu.Lock()
+	e.closed = true
+	c.eof = true
+	c.cond.Broadcast()
+	c.mu.Unlock()
+	return nil
+}
+
+// AwaitDrained blocks until the client reader has consumed everything the
+// server wrote and is parked again (or the connection is closed).
+func (e *ClientEnd) AwaitDrained() {
+	c := e.C
+	c.mu.Lock()
+	defer c.mu.Unlock()
+	for !(e.rd >= len(c.out) && (e.parked || c.closed || e.closed)) {
+		c.cond.Wait()
+	}
+}
+
+func (e *ClientEnd) LocalAddr() net.Addr                { return Addr("mem:client") }
+func (e *ClientEnd) RemoteAddr() net.Addr               { return Addr("mem:server") }
+func (e *ClientEnd) SetDeadline(t time.Time) error      { return nil }
+func (e *ClientEnd) SetReadDeadline(t time.Time) error  { return nil }
+func (e *ClientEnd) SetWriteDeadline(t time.Time) error { return nil }
